@@ -671,6 +671,7 @@ def run(ctx):
             frontier_sizes[f"{seed}:level{level}"] = len(nxt)
             if nxt or last:
                 ctx.stats.max_depth = max(ctx.stats.max_depth, level)
+            if nxt:
                 ctx.stats.sample({"seed": seed, "history": jsonable(nxt[(ctx.seed * 7919 + 13) % len(nxt)])})
         total_states += len(seen)
     ctx.stats.states = total_states
